@@ -28,6 +28,33 @@ func (s *State) SetEntityAction(ea *vikjapb.EntityAction) {
 	entityActions[ea.Name] = ea
 }
 
+// SetEntityActionIfLatest stores the given entity action unless the one stored
+// for the same entity and name has a later timestamp, in which case it reports
+// false. The comparison and the storing are one step: of two actions set at
+// the same time by different participants, the older never replaces the newer.
+func (s *State) SetEntityActionIfLatest(ea *vikjapb.EntityAction) bool {
+	s.entityActionMutex.Lock()
+	defer s.entityActionMutex.Unlock()
+
+	if latest, ok := s.entityActions[ea.EntityId][ea.Name]; ok &&
+		ea.Timestamp.AsTime().Before(latest.Timestamp.AsTime()) {
+		return false
+	}
+
+	if s.entityActions == nil {
+		s.entityActions = make(map[uint32]map[string]*vikjapb.EntityAction)
+	}
+
+	entityActions, ok := s.entityActions[ea.EntityId]
+	if !ok {
+		entityActions = make(map[string]*vikjapb.EntityAction)
+		s.entityActions[ea.EntityId] = entityActions
+	}
+
+	entityActions[ea.Name] = ea
+	return true
+}
+
 func (s *State) EntityAction(entityID uint32, actionName string) (*vikjapb.EntityAction, bool) {
 	s.entityActionMutex.RLock()
 	defer s.entityActionMutex.RUnlock()
